@@ -27,13 +27,17 @@ VARIANTS = {
     # VG: libabt compiled with gcov counters (tools/coverage.py: which library lines the
     # workloads reach); never part of a check
     "VG": ([], [], []),
+    "VG2": (["ABT_CONFIG_USE_LINUX_FUTEX"], [], []),
+    "VG3": (["ABT_CONFIG_DISABLE_LAZY_STACK_ALLOC"], [], []),
 }
 LIB_ONLY = {
     "VP": ("clang", ["-fsanitize-coverage=trace-pc-guard,trace-loads,trace-stores", "-Wno-unknown-warning-option"]),
     "VG": ("gcc", ["-O1", "--coverage", "-fprofile-update=single"]),
+    "VG2": ("gcc", ["-O1", "--coverage", "-fprofile-update=single"]),
+    "VG3": ("gcc", ["-O1", "--coverage", "-fprofile-update=single"]),
 }
-HARNESS_ONLY = {"VG": ["-DSIM_GCOV"]}
-LINK_ONLY = {"VG": ["--coverage"]}
+HARNESS_ONLY = {"VG": ["-DSIM_GCOV"], "VG2": ["-DSIM_GCOV"], "VG3": ["-DSIM_GCOV"]}
+LINK_ONLY = {"VG": ["--coverage"], "VG2": ["--coverage"], "VG3": ["--coverage"]}
 
 
 def die(msg):
@@ -131,7 +135,7 @@ def main():
         return
     t0 = time.time()
     tmp = bdir + ".tmp%d" % os.getpid()
-    if a.variant == "VG":
+    if a.variant.startswith("VG"):
         tmp = bdir  # the objects record the absolute path of their .gcda files
     shutil.rmtree(tmp, ignore_errors=True)
     os.makedirs(tmp)
@@ -200,7 +204,7 @@ def main():
         shutil.rmtree(tmp, ignore_errors=True)  # a concurrent build won the race
     # keep the cache small
     root = os.path.join(VERIF, "build")
-    ents = [os.path.join(root, d) for d in os.listdir(root) if re.match(r'V\w-[0-9a-f]{20}$', d)]
+    ents = [os.path.join(root, d) for d in os.listdir(root) if re.match(r'V\w+-[0-9a-f]{20}$', d)]
     ents.sort(key=lambda p: os.path.getmtime(p), reverse=True)
     for p in ents[10:]:
         shutil.rmtree(p, ignore_errors=True)
